@@ -21,7 +21,7 @@ From BB Require Import BN Brute SpaceFacts TrapFacts PercolateFacts AttractorFac
   Strict PetriNet Control Meta FilterFacts PetriNetFacts TrappistFacts DiagramStruct DiagramSem1 DiagramCache
   DiagramDepth DiagramComplete Termination ControlFacts MetaFacts Candidates StrictFacts MinExpandFacts CandidatesFacts SymbolicTest SymbolicTestFacts Signed ReductionFacts ControlFacts2 Main Blocks BlocksFacts ObsFacts OwnerFacts CandidatesTerm
   PartialOwner BlockMath BlockComplete ASeeds ASeedsFacts LogChecks SkipRule SkipRuleFacts Names NamesFacts Perm PermFacts SCC SCCFacts SCCStruct ControlFacts3 SCCTerm FilterSym Main2 StrategyFacts ControlFacts4 SkipRuleFacts2 SCCComplete SCCAttr BlockComplete2 ControlFacts5 Iso SkipSem ControlFacts6.
-From BB Require Import PyLib PyLibSd PyLibCore PyLibSd2 PyLibScc PySrcSdBase PySrcSdScc PySrcSdSccFacts Control PyLibControl PySrcSdSccMain PySrcSdSccMainFacts PyLibBlocks PySrcSdBlocks PySrcApi PySrcEndToEndScc.
+From BB Require Import PyLib PyLibSd PyLibCore PyLibSd2 PyLibScc PySrcSdBase PySrcSdScc PySrcSdSccFacts Control PyLibControl PySrcSdSccMain PySrcSdSccMainFacts PyLibBlocks PySrcSdBlocks PySrcSdBlocksFacts PySrcApi PySrcEndToEndScc PySrcEndToEndBlocks.
 
 (* translator tie: the function GENERATED from the current text of expand_source_SCCs.expand_source_SCCs (PySrcSdSccMain.v: root sources, BFS over the levels, recursion through the default expander into the sub-diagrams of the source SCCs, attachment by the generated attach_scc_subdiagram) does what the model's SCC.scc_main does on every diagram satisfying SCCTerm.SI, for every fuel, tape and nesting depth *)
 Theorem C01_source_expand_source_SCCs : forall (fuel : nat) (N : net) (cfg : config) (check_maa : bool) (d : sd) (tape : tape_t) (rec : nat), 1 <= max_motifs cfg -> SI N d -> let '(d', r, tape') := scc_main fuel N cfg check_maa d tape in scc_outcome (py_expand_source_SCCs fuel N cfg d tape check_maa rec) d' r tape'.
@@ -29,6 +29,20 @@ Proof. exact py_expand_source_SCCs_spec. Qed.
 
 Theorem C01_source_expand_source_SCCs_fresh : forall (fuel : nat) (N : net) (cfg : config) (check_maa : bool) (tape : tape_t), 1 <= max_motifs cfg -> let '(d', r, tape') := scc_main fuel N cfg check_maa (init N) tape in scc_outcome (py_expand_source_SCCs fuel N cfg (init N) tape check_maa 0) d' r tape'.
 Proof. exact py_expand_source_SCCs_fresh. Qed.
+
+(* translator tie for the DEFAULT strategy: the function GENERATED from the current text of expand_source_blocks.expand_source_blocks (PySrcSdBlocks.v: level loop with the visited set, size limits, source fast-forward, grouping of successors into blocks, minimal blocks, stable sort, clean-block search reading the is_clean tape) returns the diagram and result of the model's Blocks.expand_block on every well-formed diagram, for every fuel, option combination and tape *)
+Theorem C01_source_expand_source_blocks : forall (fuel : nat) (N : net) (cfg : config) (d : sd) (tape : list bool) (check_maa : bool) (size_limit : option nat) (opt_src exact : bool), SWF N d -> let '(d', r) := expand_block fuel N cfg d check_maa opt_src size_limit tape in blk_outcome (py_expand_source_blocks fuel N cfg d tape check_maa size_limit opt_src exact) d' r.
+Proof. exact py_expand_source_blocks_spec. Qed.
+
+Theorem C01_source_expand_source_blocks_fresh : forall (fuel : nat) (N : net) (cfg : config) (tape : list bool) (check_maa : bool) (size_limit : option nat) (opt_src exact : bool), let '(d', r) := expand_block fuel N cfg (init N) check_maa opt_src size_limit tape in blk_outcome (py_expand_source_blocks fuel N cfg (init N) tape check_maa size_limit opt_src exact) d' r.
+Proof. exact py_expand_source_blocks_fresh. Qed.
+
+Theorem C01_source_public_expand_block : forall (fuel : nat) (N : net) (cfg : config) (d : sd) (tape : list bool) (find_maa : bool) (size_limit : option nat) (opt_src exact : bool), SWF N d -> let '(d', r) := expand_block fuel N cfg d find_maa opt_src size_limit tape in blk_outcome (py_api_expand_block fuel N cfg d tape find_maa size_limit opt_src exact) d' r.
+Proof. exact py_api_expand_block_spec. Qed.
+
+(* C01 for the SOURCE TEXT of build(): when the generated expand_block with build()'s defaults returns True on a fresh diagram, the clean-block verdicts of the run are right (decided per run) and the seeds of every expanded node are one-to-one with that node's own attractors, then the seeds of the whole diagram are one-to-one with the attractors of the network *)
+Theorem C01_source_text_build_one_to_one : forall (fuel : nat) (N : net) (cfg : config) (tape : list bool) (d' : sd) (t : list bool) (seeds : nat -> list state), 1 <= max_motifs cfg -> py_api_build fuel N cfg (init N) tape = SRet d' (true, t) -> clean_log_ok N (fst (expand_block_log fuel N cfg (init N) true true None tape)) -> exp_seeds_ok N d' seeds -> (forall A : state -> Prop, attractor N A -> exists (i : nat) (s : state), i < size d' /\ n_exp (get d' i) = true /\ In s (seeds i) /\ A s) /\ (forall (A : state -> Prop) (i j : nat) (s t0 : state), attractor N A -> i < size d' -> j < size d' -> n_exp (get d' i) = true -> n_exp (get d' j) = true -> In s (seeds i) -> In t0 (seeds j) -> A s -> A t0 -> i = j /\ s = t0).
+Proof. exact py_api_build_one_to_one. Qed.
 
 (* C01 ('no attractor is lost') for the SOURCE TEXT of the source-SCC strategy: when the generated public method expand_scc (PySrcApi.v, a call of the generated expand_source_SCCs) returns True on a fresh diagram without the motif-avoidance shortcut, every attractor is reported by an expanded node whose seeds are one-to-one with its own attractors *)
 Theorem C01_source_text_expand_scc_every_attractor_reported : forall (fuel : nat) (N : net) (cfg : config) (tape : list (option bool)) (d' : sd) (t : list (option bool)) (seeds : nat -> list state), 1 <= max_motifs cfg -> py_api_expand_scc fuel N cfg (init N) tape false = SRet d' (true, t) -> exp_seeds_ok N d' seeds -> forall A : state -> Prop, attractor N A -> exists (i : nat) (s : state), i < size d' /\ n_exp (get d' i) = true /\ In s (seeds i) /\ A s.
@@ -187,6 +201,10 @@ Proof. vm_compute. repeat split; reflexivity. Qed.
 
 Print Assumptions C01_source_expand_source_SCCs.
 Print Assumptions C01_source_expand_source_SCCs_fresh.
+Print Assumptions C01_source_expand_source_blocks.
+Print Assumptions C01_source_expand_source_blocks_fresh.
+Print Assumptions C01_source_public_expand_block.
+Print Assumptions C01_source_text_build_one_to_one.
 Print Assumptions C01_source_text_expand_scc_every_attractor_reported.
 Print Assumptions C01_filter_exact.
 Print Assumptions C01_filter_exact_seeds_only.
